@@ -196,6 +196,62 @@ def repeat_key(t, rng):
         return x
     return rebuild(t)
 
+# where a block stores table indices: (container, key) -> target table (BlockTables key)
+_TABS = {"ip": 0, "ct": 1, "nr": 2, "sig": 3, "qlist": 4, "qrr": 5, "rrlist": 6, "rr": 7, "mmd": 8}
+def index_boundary_mutants(t):
+    """for the first block of a parsed file: one mutant per kind of stored index, with the FIRST index of that kind replaced by the length of
+    the table it points into (the smallest value that is out of range) - a reader must refuse it, not read one entry past the table"""
+    if t[0] != "a" or len(t[1]) < 3 or t[1][2][0] != "a" or not t[1][2][1]: return []
+    blk = t[1][2][1][0]
+    if blk[0] != "m": return []
+    get = lambda m, k: next((v for kk, v in m[1] if kk[0] in ("u", "n") and ival(kk) == k), None)
+    tabs = get(blk, 2)
+    tlen = {nm: (len(get(tabs, k)[1]) if tabs is not None and get(tabs, k) is not None and get(tabs, k)[0] == "a" else 0) for nm, k in _TABS.items()}
+    # (path to the container, key inside it or None for 'every element of the list', target table)
+    sites = []
+    def items(key): a = get(blk, key); return a[1] if a is not None and a[0] == "a" else []
+    def tab(nm): a = get(tabs, _TABS[nm]) if tabs is not None else None; return a[1] if a is not None and a[0] == "a" else []
+    for it in items(3):
+        if it[0] != "m": continue
+        sites += [("qr.ip", it, 1, "ip"), ("qr.sig", it, 4, "sig"), ("qr.name", it, 7, "nr")]
+        rpd = get(it, 10)
+        if rpd is not None and rpd[0] == "m": sites.append(("qr.bailiwick", rpd, 0, "nr"))
+        for ek in (11, 12):
+            e = get(it, ek)
+            if e is not None and e[0] == "m": sites += [("qr.ext%d.q" % ek, e, 0, "qlist"), ("qr.ext%d.a" % ek, e, 1, "rrlist"), ("qr.ext%d.n" % ek, e, 2, "rrlist"), ("qr.ext%d.r" % ek, e, 3, "rrlist")]
+    for it in items(4):
+        if it[0] == "m": sites.append(("aec.ip", it, 2, "ip"))
+    for it in items(5):
+        if it[0] == "m": sites += [("mm.ip", it, 1, "ip"), ("mm.data", it, 3, "mmd")]
+    for e in tab("sig"):
+        if e[0] == "m": sites += [("sig.ip", e, 0, "ip"), ("sig.ct", e, 8, "ct"), ("sig.rdata", e, 15, "nr")]
+    for e in tab("qrr"):
+        if e[0] == "m": sites += [("qrr.name", e, 0, "nr"), ("qrr.ct", e, 1, "ct")]
+    for e in tab("rr"):
+        if e[0] == "m": sites += [("rr.name", e, 0, "nr"), ("rr.ct", e, 1, "ct"), ("rr.rdata", e, 3, "nr")]
+    for e in tab("mmd"):
+        if e[0] == "m": sites.append(("mmd.ip", e, 0, "ip"))
+    for e in tab("qlist"):
+        if e[0] == "a" and e[1]: sites.append(("qlist.elem", e, None, "qrr"))
+    for e in tab("rrlist"):
+        if e[0] == "a" and e[1]: sites.append(("rrlist.elem", e, None, "rr"))
+    out, seen = [], set()
+    for kind, cont, key, target in sites:
+        if kind in seen: continue
+        if key is not None and get(cont, key) is None: continue
+        seen.add(kind)
+        newv = ("u", tlen[target], 0)
+        def rebuild(x):
+            if x is cont:
+                if key is None: return ("a", [newv] + list(x[1][1:]), x[2], x[3])
+                return ("m", [(kk, newv if (kk[0] in ("u", "n") and ival(kk) == key) else vv) for kk, vv in x[1]], x[2], x[3])
+            if x[0] == "m": return ("m", [(a, rebuild(b)) for a, b in x[1]], x[2], x[3])
+            if x[0] == "a": return ("a", [rebuild(y) for y in x[1]], x[2], x[3])
+            if x[0] == "tag": return ("tag", x[1], rebuild(x[2]), x[3])
+            return x
+        out.append((kind, encode(rebuild(t))))
+    return out
+
 def drop_member(t, rng):
     """the tree with ONE entry of its outermost map removed, nothing else changed (a structure that lacks a member: its reader must
     insist on exactly the mandatory ones)"""
